@@ -11,12 +11,12 @@ LEVEL = "exploration"
 RULE = ("one or two streams (the second, already sorted one before or after the stream under test in path order) with a sorted backbone (OHx .. OHe, bursts, marks, jumbo bursts) and 0-5 OU[ .. OU] "
         "regions whose inner events have internally unordered clocks lying up to d events back (d from 0 to "
         "beyond the look-back -n, n from 3 up), equal clocks on both sides of the insertion point, regions that "
-        "sort into a previous region or to the very start; always <= the clock of their OU]; a third of the streams with seconds rather than nanoseconds between events (differences beyond 32 bits).  Oracle when the "
+        "sort into a previous region or to the very start; always <= the clock of their OU]; a third of the streams with seconds rather than nanoseconds between events (differences beyond 32 bits), begin/end pairs of other models whose codes look like the markers (6U[ 6U], DU[ DU], VU[ VU]) with late clocks inside regions, a third of the runs under a shim that makes every pwrite() of the tool short.  Oracle when the "
         "look-back suffices (depth <= n-2): exit 0, same file size, decoded events = stable sort by clock of the "
         "original events with every event's bytes unchanged (hence permutation, order, stability, untouched "
-        "prefix), a second run changes nothing, ovnisort -c passes, ovniemu -l accepts.  For deeper regions the "
+        "prefix), a second run changes nothing, ovnisort -c passes, ovniemu -l accepts (asserted when the reference model accepts the sorted history).  For deeper regions the "
         "only accepted outcomes are (exit 0 and exactly that result) or (exit 1 with a diagnostic).  "
-        "Non-trivial = a region whose events move >= 2 positions; distinct = stream.")
+        "An enumerated part sorts traces of 1100 (thorough: 2500) streams under the default open-files limit.  Non-trivial = a region whose events move >= 2 positions; distinct = stream.")
 ASSUMPTIONS = ["events of an unsorted region never carry a clock larger than their OU] (precondition in kernel.md)",
                "depth counts the events with clock >= the region's minimum clock that precede OU] (the tool's ring holds n-1 events)"]
 
